@@ -31,6 +31,8 @@ def rand_bursts(rng, n, kinds, horizon=30000, cancel=False, hosts=("fe80::a1", "
                 steps.append({"op": "msg", "kind": k, "src": rng.choice(["fe80::cc", "unspec", "fd00::cc"])})
             elif k == "flip":
                 steps.append({"op": "flip", "toggle": True})
+            elif k == "link":
+                steps.append({"op": "link"})
             elif k == "rasame":
                 steps.append({"op": "msg", "kind": "ra", "variant": "same", "src": "fe80::dd"})
             elif k == "radiff":
@@ -210,10 +212,12 @@ PLANS["C06"] = dict(
          dict(MaxIn=4, MaxT=16)),
         ("c06per", dict(Hosts="{}", Kinds="{}", MaxIn=2, MaxT=26, MinIv=6, MaxIv=7, AllowCancel="FALSE"), dict(MaxIn=3))],
     env=[("a", dict(Srcs='{"unspec", "h1"}', MaxEv=3, MaxT=14), dict(MaxEv=4, MaxT=16), [DEF, FAST, JIT]),
-         ("stop", dict(Srcs='{"unspec"}', Terms="{TRUE, FALSE}", MaxEv=3, MaxT=13), dict(MaxEv=4), [DEF, FAST])],
-    cap_quick=1500, cap_thorough=12000,
-    nrand=40, nrand_thorough=1500, rand_variants=[DEF, FAST],
-    rand=lambda rng: rand_bursts(rng, rng.randrange(20, 120), ["rs"], cancel=rng.random() < 0.3),
+         ("stop", dict(Srcs='{"unspec"}', Terms="{TRUE, FALSE}", MaxEv=3, MaxT=13), dict(MaxEv=4), [DEF, FAST]),
+         # re-initialisation (link event -> re-dial): spacing starts again at the new session's initial RA
+         ("reinit", dict(Srcs='{"unspec"}', Kinds='{"link"}', MaxEv=3, MaxT=16), dict(MaxEv=4), [DEF, FAST])],
+    cap_quick=1800, cap_thorough=14000,
+    nrand=60, nrand_thorough=1500, rand_variants=[DEF, FAST],
+    rand=lambda rng: rand_bursts(rng, rng.randrange(20, 120), ["rs", "rs", "rs", "rs", "link"] if rng.random() < 0.4 else ["rs"], cancel=rng.random() < 0.3),
     nontrivial=lambda s: sum(1 for x in s["steps"] if x["op"] == "rs" and x.get("src") == "unspec") >= 2,
     rule="scenarios = TLC-enumerated environment histories (AdvEnv: RS from :: / from a host on a 500 ms grid, with and "
          "without stop) x configuration variants, plus seeded random bursty histories; non-trivial = at least two "
@@ -338,8 +342,30 @@ def rand_faults(rng):
     return steps
 
 
-def _c10_fixed():
+def concurrent_write_failures():
+    """Two or three scheduled transmissions held inside WriteTo at the same time, then all fail (or one fails)."""
     out = []
+    for mode_cfg in (DEF["cfg"], FAST["cfg"], UNI["cfg"]):
+        for hosts in (["fe80::a1", "2001:db8::a2"], ["fe80::a1", "2001:db8::a2", "fd00::a3"], ["fe80::a1", "fe80::a1"]):
+            for fail in ("all", "first"):
+                for cls in ("other", "sys"):
+                    steps = [{"op": "adv", "to": 5000}]
+                    for h in sorted(set(hosts)):
+                        steps.append({"op": "hold", "key": "w|" + h})
+                    for h in hosts:
+                        steps.append({"op": "rs", "src": h})
+                    steps.append({"op": "adv", "to": 5600})
+                    for h in (sorted(set(hosts)) if fail == "all" else [hosts[0]]):
+                        steps.append({"op": "failw", "dst": h, "class": cls})
+                    for h in sorted(set(hosts)):
+                        steps.append({"op": "release", "key": "w|" + h, "nowait": True})
+                    steps += [{"op": "wait"}, {"op": "adv", "to": 9000}, {"op": "snap"}, {"op": "adv", "to": 14000}]
+                    out.append({"cfg": dict(mode_cfg), "steps": steps, "src": "concurrent-write-failures"})
+    return out
+
+
+def _c10_fixed():
+    out = concurrent_write_failures()
     for mode in ("adv", "mon"):
         for k in range(1, 7):
             steps = [{"op": "adv", "to": 5000}] + [{"op": "timeout"} for _ in range(k)] + \
@@ -353,6 +379,7 @@ def _c10_fixed():
 
 
 PLANS["C10"]["fixed"] = _c10_fixed()
+PLANS["C07"]["fixed"] = concurrent_write_failures()
 
 
 L0 = {"cfg": {"min": 200000, "max": 600000, "life": 0}}
